@@ -199,6 +199,16 @@ func callSSA(th *thread, caller *frame, pos token.Pos, fn *ssa.Function, args []
 		r.ensureInit(fn.Pkg)
 	}
 	r.noteFunc(fn, false)
+	if len(r.cfg.QuietPkgs) > 0 && fn.Pkg != nil {
+		pp := fn.Pkg.Pkg.Path()
+		for _, q := range r.cfg.QuietPkgs {
+			if strings.HasPrefix(pp, q) {
+				th.noPreempt++
+				defer func() { th.noPreempt-- }()
+				break
+			}
+		}
+	}
 	th.depth++
 	if th.depth > maxCallDepth {
 		panic(abortPath{"truncated", "call depth exceeded in " + fn.String()})
